@@ -81,6 +81,15 @@ CHECKS["C15"] = dict(
     note="PARTIAL: data-race freedom is observed by the race detector, not proved; the single-owner structure is an assumption of the model.",
     design="6/C15", technique="Coq proof (actor service order = linearization, by invariants over call/serve/return histories) + real-time race-detector runs checked by an extracted oracle")
 
+CHECKS["C11"] = dict(
+    text="Tree-of-lifecycles model for trees of ANY shape: close_affects_subtree_only (after any sequence of closes, propagations and completions every non-running node lies below a closed node: never up or sideways), shutdown_measure_decreases (every internal step decreases a measure bounded by 2 x nodes), quiescent_no_stopping and quiescent_implies_subtree_done (when no internal step is left, the stopped node and every descendant are done). Correspondence: trees mixing all six subscribe/clone forms and monitors to depth 4 on a real controller in virtual time; every node kind as the closed one, every step index as the closing moment, mechanisms {Close, 3x concurrent Close, context cancel, list error}: the done-set at quiescence vs the extracted done_after_close, Events() channels closed in the subtree, the rest of the tree still delivering and current.",
+    note="Component internals are abstracted to lifecycle states here; the per-component protocol is proved in LcProto.v (C12). Fairness is needed to reach quiescence.",
+    design="6/C11", technique="Coq proof (safety invariant over all action sequences, measure, quiescence theorem on trees of any shape) + shutdown-point enumeration in virtual time")
+CHECKS["C12"] = dict(
+    text="go-lifecycle protocol LTS (Shutdown callers, WatchContext, WatchChannel, run loop) by the closed-set technique: no_double_shutdown (ShutdownInitiated at most once on every schedule: no close-of-closed-channel panic), no_goroutine_left (from every stopping state the state with run loop exited, Done closed and every helper goroutine and blocked caller gone is reachable by their own steps), close_after_done_returns; tree termination (C11 measure + quiescence); lister/ticker/worker termination and emptiness after Done (Lister.v). Correspondence: shutdown-point enumeration on real trees in virtual time with triggers {Close, 3x Close, cancel, list error}, Close swept over time with slow lists / hanging or failing watch connects; synctest deadlock detection = 'does not hang'; goroutine inventory by library frames back to baseline; every API of every stopped node probed (returns ErrNotRunning or a result).",
+    note="PARTIAL: wall-clock bounds and the goroutine inventory are observed, not proved. Proviso: List/Watch honour context cancellation.",
+    design="6/C12", technique="Coq proof (closed-set reachability on the lifecycle protocol, termination measure) + shutdown-point enumeration with deadlock and goroutine-inventory oracles")
+
 PENDING = {}
 
 def main():
